@@ -421,7 +421,7 @@ def gen_graph(rng, flavour='any', moderate=False, dims=None):
         else:
             kinds.append(rng.choice(['SE2', 'SE3', 'R2', 'R3']))
     # make sure there is at least one pose vertex
-    if flavour == 'ok' and not any(k in ('SE2', 'SE3') for k in kinds):
+    if flavour in ('ok', 'defect') and not any(k in ('SE2', 'SE3') for k in kinds):
         kinds[0] = 'SE2' if dims != '3d' else 'SE3'
     ids = []
     while len(ids) < nv:
@@ -441,7 +441,7 @@ def gen_graph(rng, flavour='any', moderate=False, dims=None):
     def info(n):
         if moderate:
             return vals.info_moderate(n)
-        return vals.info(n, symmetric=(flavour == 'ok' or rng.random() < 0.85), diagonal=rng.random() < 0.1)
+        return vals.info(n, symmetric=(flavour in ('ok', 'defect') or rng.random() < 0.85), diagonal=rng.random() < 0.1)
 
     verts = [Vertex(i, pose(k), fixed=rng.random() < 0.2) for i, k in zip(ids, kinds)]
     # effective kind per id (the LAST vertex with an id wins in Graph._initialize)
@@ -458,6 +458,7 @@ def gen_graph(rng, flavour='any', moderate=False, dims=None):
     while len(edges) < ne and tries < 200:
         tries += 1
         c = rng.choice(['odo', 'odo', 'lmk', 'lmk', 'cus'] if flavour == 'any' else ['odo', 'odo', 'lmk', 'lmk'])
+        okf = flavour in ('ok', 'defect')
         if c == 'odo':
             ks = [k for k in by_kind if (k in ('SE2', 'SE3') or flavour == 'any')]
             if not ks:
@@ -473,7 +474,7 @@ def gen_graph(rng, flavour='any', moderate=False, dims=None):
             a, b = rng.choice(pairs)
             i, j = rng.choice(by_kind[a]), rng.choice(by_kind[b])
             if a == 'SE2':
-                if flavour == 'ok' or rng.random() < 0.7:
+                if flavour in ('ok', 'defect') or rng.random() < 0.7:
                     off = PoseSE2([rng.choice([0.0, -0.0]), rng.choice([0.0, -0.0])], rng.choice([0.0, -0.0]))
                     if rng.random() < 0.3:
                         off[2] = -0.0
@@ -512,6 +513,52 @@ def gen_graph(rng, flavour='any', moderate=False, dims=None):
             ct = rng.choice(['NN', 'WN', 'NR', 'WR'])
             i = rng.choice(list(eff))
             edges.append(CUSTOM[ct]([i], info(2), np.array(vals.vec(2), dtype=np.float64)))
+    if flavour == 'defect':
+        # exactly one thing the format cannot express, anywhere among the edges
+        def fresh_id():
+            while True:
+                i = rand_id(rng)
+                if i not in eff:
+                    eff[i] = None
+                    return i
+        d = rng.choice(['odo_rn', 'lmk_rn', 'se2_off', 'se2_off', 'oid_none', 'conflict_edges', 'conflict_param'])
+        vals.hist['defect_' + d] = vals.hist.get('defect_' + d, 0) + 1
+        extra = []
+        if d == 'odo_rn':
+            k = rng.choice(['R2', 'R3'])
+            a, b = fresh_id(), fresh_id()
+            verts += [Vertex(a, pose(k)), Vertex(b, pose(k))]
+            extra = [EdgeOdometry([a, b], info(CDIM[k]), pose(k))]
+        elif d == 'lmk_rn':
+            k = rng.choice(['R2', 'R3'])
+            a, b = fresh_id(), fresh_id()
+            verts += [Vertex(a, pose(k)), Vertex(b, pose(k))]
+            extra = [EdgeLandmark([a, b], info(CDIM[k]), pose(k), pose(k), rng.choice([None, 0]))]
+        elif d == 'se2_off':
+            a, b = fresh_id(), fresh_id()
+            verts += [Vertex(a, pose('SE2')), Vertex(b, pose('R2'))]
+            off = PoseSE2([0.0, 0.0], 0.0)
+            off[rng.randrange(3)] = rng.choice([1.0, -1e-300, 5e-324, 0.25, float('nan')])
+            extra = [EdgeLandmark([a, b], info(2), pose('R2'), off, rng.choice([None, 0, 3]))]
+        else:
+            a, b = fresh_id(), fresh_id()
+            verts += [Vertex(a, pose('SE3')), Vertex(b, pose('R3'))]
+            o = fresh_id()
+            if d == 'oid_none':
+                extra = [EdgeLandmark([a, b], info(3), pose('R3'), pose('SE3'), None)]
+            elif d == 'conflict_edges':
+                off = pose('SE3')
+                off2 = PoseSE3(off[:3], off[3:])
+                off2[rng.randrange(7)] += 1.0
+                extra = [EdgeLandmark([a, b], info(3), pose('R3'), off, o), EdgeLandmark([a, b], info(3), pose('R3'), off2, o)]
+            else:
+                off = pose('SE3')
+                off2 = PoseSE3(off[:3], off[3:])
+                off2[rng.randrange(7)] += 1.0
+                params[('PARAMS_SE3OFFSET', o)] = G2OParameterSE3Offset(('PARAMS_SE3OFFSET', o), off2)
+                extra = [EdgeLandmark([a, b], info(3), pose('R3'), off, o)]
+        at = rng.randint(0, len(edges))
+        edges[at:at] = extra
     # unrelated parameters (as a file would have defined them)
     for _ in range(rng.choice([0, 0, 1, 2])):
         if rng.random() < 0.5:
@@ -615,7 +662,7 @@ def run_export(rng, n, prefix):
     the model's canon g (and canon (canon g)) against the graph re-imported after one (two) real cycles."""
     stats, cases = {}, []
     for k in range(n):
-        g = gen_graph(rng, 'ok' if k % 3 != 2 else 'any')
+        g = gen_graph(rng, ['ok', 'ok', 'any', 'ok', 'ok', 'defect'][k % 6])
         s, atoms, expr = export_case_expr(g)
         cases.append((g, s, atoms, expr))
     exprs = [c[3] for c in cases]
@@ -1261,18 +1308,28 @@ def check_roundtrip(s, cycles, stats, chi2=True):
         c0 = None
     cur, exp = g, s
     for k in range(1, cycles + 1):
+        d = tempfile.mkdtemp(prefix='g2o_', dir=os.path.join(vlib.BUILD, 'corr'))
+        path = os.path.join(d, 'g.g2o')
         try:
-            nxt = cycle(cur)
-        except Exception as ex:  # noqa
-            name = type(ex).__name__
+            try:
+                cur.to_g2o(path)
+            except Exception as ex:  # noqa
+                name = type(ex).__name__
+                if k == 1 and ref is not None:
+                    stats['refused_' + name] = stats.get('refused_' + name, 0) + 1
+                    if name != ref:
+                        return {'what': 'content the format cannot express is refused with %s, expected %s' % (name, ref), 'cycle': k}
+                    return None
+                return {'what': 'export in cycle %d raised %s: %s' % (k, name, ex), 'cycle': k}
             if k == 1 and ref is not None:
-                stats['refused_' + name] = stats.get('refused_' + name, 0) + 1
-                if name != ref:
-                    return {'what': 'content the format cannot express is refused with %s, expected %s' % (name, ref), 'cycle': k}
-                return None
-            return {'what': 'export/import cycle %d raised %s: %s' % (k, name, ex), 'cycle': k}
-        if k == 1 and ref is not None:
-            return {'what': 'content the format cannot express (%s expected) was written instead of refused' % ref, 'cycle': k}
+                return {'what': 'content the format cannot express (%s expected) was written instead of refused' % ref, 'cycle': k}
+            try:
+                with np.errstate(all='ignore'):
+                    nxt = Graph.from_g2o(path)
+            except Exception as ex:  # noqa
+                return {'what': 'import in cycle %d raised %s: %s' % (k, type(ex).__name__, ex), 'cycle': k}
+        finally:
+            shutil.rmtree(d, ignore_errors=True)
         exp = py_canon(exp)
         got = snapshot(nxt)
         why = diff_snapshots(exp, got, 'expected (only wrap/normalize may change) vs re-imported after %d cycle(s)' % k)
@@ -1328,7 +1385,7 @@ def oracle_roundtrip(rng, n, cycles=5):
     stats, fails = {}, []
     for k in range(n):
         moderate = k % 2 == 0
-        g = gen_graph(rng, 'ok' if k % 4 != 3 else 'any', moderate=moderate)
+        g = gen_graph(rng, ['ok', 'ok', 'ok', 'any', 'ok', 'defect'][k % 6], moderate=moderate)
         s = snapshot(g)
         if any(e['t'] == 'cus' for e in s['edges']):
             s['edges'] = [e for e in s['edges'] if e['t'] != 'cus']     # outside C13's quantifier
